@@ -660,6 +660,18 @@ def _backend_worker(args):
                     fail(pre + "add", "reduced-pair", "x=%s/y=%s" % (a.hex(), b.hex()), "got %s want %s" % (q.raw.hex(), le((ai + bi) % L).hex()))
                 if q2.raw != le((ai - bi) % L):
                     fail(pre + "sub", "reduced-pair", "x=%s/y=%s" % (a.hex(), b.hex()), "got %s want %s" % (q2.raw.hex(), le((ai - bi) % L).hex()))
+        # the comparison with L at every distance 2^k on both sides (a word-wise or limb-wise comparison decides on the first differing word),
+        # and with single words of L replaced by 0 / all ones
+        cmpv = [L + (1 << k) for k in range(256) if L + (1 << k) < (1 << 256)] + [L - (1 << k) for k in range(253) if L - (1 << k) >= 0]
+        cmpv += [L | (1 << k) for k in range(256)] + [L & ~(1 << k) for k in range(253)]
+        for w in range(4):
+            cmpv += [L & ~(((1 << 64) - 1) << (64 * w)), (L | (((1 << 64) - 1) << (64 * w))) & ((1 << 256) - 1)]
+        for ci in sorted(set(cmpv)):
+            st["n"] += 1; st["nt"] += 1
+            r = fcan(le(ci))
+            if r != (1 if ci < L else 0):
+                fail(pre + "is_canonical", "distance", "s=%s" % le(ci).hex(), "returned %d, s %s L" % (r, "<" if ci < L else ">="))
+            fred32 = getattr(lib, pre + "negate")
         for a, ai in zip(S, Si):
             for b, bi in zip(S, Si):
                 fmul(q, a, b)
